@@ -611,6 +611,10 @@ impl<'a> Converter<'a> {
                     if matches!(n, RefNode::CaseItemExpression(_)) {
                         exprs.push(self.node_text(n).trim().to_string());
                         Walk::Skip
+                    } else if matches!(n, RefNode::StatementOrNull(_)) {
+                        // The item's body: a case nested in it has item
+                        // expressions of its own.
+                        Walk::Skip
                     } else {
                         Walk::Continue
                     }
